@@ -43,6 +43,32 @@ FIELD_TYPES: dict[str, str] = {
     'self.exp_out()': 's', 'self.target@Output': 's', 'self.exp_in()': 's', 'self.params': 's',
     'vert.triangle_a.value': 'n', 'vert.triangle_b.value': 'n',
 }
+# Kind of every number-like field (round 3; validated dynamically like FIELD_TYPES): decides which formatter writes a bare
+# `{expr}` / str(expr) / conv_kv(expr).  int / float / bool / Vec / Angle / UVAxis / Vec4 / intlist.
+NUM_KINDS: dict[str, str] = {
+    'self.hammer_ver': 'int', 'self.hammer_build': 'int', 'self.map_ver': 'int', 'self.format_ver': 'int',
+    'self.grid_spacing': 'int', 'self.strata_instance_vis.value': 'int', 'self.active_cam': 'int', 'self.quickhide_count': 'int',
+    'self.position': 'Vec', 'self.angle': 'Angle', 'self.pos': 'Vec', 'self.target': 'Vec',
+    'self.bounds_min': 'Vec', 'self.bounds_max': 'Vec', 'self.id': 'int', 'self.color': 'Vec',
+    'self.editor_color': 'Vec', 'self.group_id': 'int', 'group': 'int', 'self.planes[0]': 'Vec', 'self.planes[1]': 'Vec',
+    'self.planes[2]': 'Vec', 'self.uaxis': 'UVAxis', 'self.vaxis': 'UVAxis', 'self.lightmap': 'int',
+    'self.smooth': 'int', 'i': 'int', 'point': 'Vec', 'self.disp_power': 'int', 'self.disp_pos': 'Vec',
+    'self.disp_elevation': 'float', 'y': 'int', 'group_id': 'int', 'vis_id': 'int', 'self.times': 'int',
+    'vert.triangle_a.value': 'int', 'vert.triangle_b.value': 'int', 'self.ham_rot': 'float', 'self.delay': 'float',
+    'self.u': 'float', 'self.v': 'float', 'self.zoom': 'float', 'fixup.id': 'int', 'self.disp_allowed_vert': 'intlist',
+}
+# kind of the displacement vertex members (validated dynamically)
+MEMBER_KINDS = {'normal': 'Vec', 'distance': 'float', 'offset': 'Vec', 'offset_norm': 'Vec', 'alpha': 'float', 'multi_blend': 'Vec4',
+                'multi_alpha': 'Vec4', 'multi_colors[i]': 'Vec'}
+# Number formats (mirrors `numfmt` of rocq/Fmt/VmfNum.v): 'I' str(int), 'B' '1'/'0', 'R' repr(float) (shortest text that reads
+# back exactly), ('F', p) fixed notation with p decimals (format_float strips zeros: same number), ('G', p) p significant digits.
+# STR_FMTS[kind] = formats of the components of str(value), read from the __str__ methods (math.py, vmf.py) by load_str_formats.
+STR_FMTS: dict[str, list] = {}
+FLOAT_PLACES: list[int] = [0]
+# single-assignment locals of the export methods (inlined where they are interpolated), per method
+LOCALS: dict[str, dict[str, ast.AST]] = {}
+SEP_NAMES: set[str] = set()
+
 # Struct interpolations: indentation and block names chosen by the code itself.
 STRUCT_EXPRS = {'ind', 'ind[:-1]', 'title', 'name'}
 
@@ -114,10 +140,10 @@ def _coq_name(s: str) -> str:
 
 
 class Piece:
-    __slots__ = ('kind', 'text', 'cls', 'field', 'line')
+    __slots__ = ('kind', 'text', 'cls', 'field', 'line', 'fmt')
 
-    def __init__(self, kind: str, text: str = '', cls: str = '', field: str = '', line: int = 0) -> None:
-        self.kind, self.text, self.cls, self.field, self.line = kind, text, cls, field, line
+    def __init__(self, kind: str, text: str = '', cls: str = '', field: str = '', line: int = 0, fmt: Any = None) -> None:
+        self.kind, self.text, self.cls, self.field, self.line, self.fmt = kind, text, cls, field, line, fmt
 
     def __repr__(self) -> str:
         return f'Lit({self.text!r})' if self.kind == 'lit' else f'Ip({self.cls},{self.field})'
@@ -130,20 +156,109 @@ def _const_ifexp_values(e: ast.AST) -> list[str] | None:
     return None
 
 
+def fmt_name(f: Any) -> str:
+    return f if isinstance(f, str) else f'{f[0]}{f[1]}'
+
+
+def _spec_format(fn: str, sp: str, line: int) -> Any:
+    """Format of a `{x:spec}` interpolation: g / .Ng -> ('G', N); .Nf -> ('F', N); 0Nd / 0N / d -> 'I'."""
+    m = re.fullmatch(r"f'(?:\.(\d+))?g'", sp)
+    if m:
+        return ('G', int(m.group(1)) if m.group(1) else 6)
+    m = re.fullmatch(r"f'\.(\d+)f'", sp)
+    if m:
+        return ('F', int(m.group(1)))
+    if re.fullmatch(r"f'0?\d*d?'", sp):
+        return 'I'
+    raise TranslateError(f'{fn}:{line}: unknown format spec {sp}')
+
+
+def kind_of(fn: str, e: ast.AST, line: int) -> str:
+    src = ast.unparse(e)
+    if isinstance(e, ast.Name) and e.id in LOCALS.get(fn, {}):
+        return kind_of(fn, LOCALS[fn][e.id], line)
+    k = NUM_KINDS.get(src)
+    if k is None:
+        raise TranslateError(f'{fn}:{line}: the kind of number {src} is not in the table')
+    return k
+
+
+def str_formats(fn: str, kind: str, line: int) -> list:
+    """Formats of the components of str(value) for a value of this kind."""
+    if kind == 'int':
+        return ['I']
+    if kind == 'float':
+        return ['R']
+    if kind in STR_FMTS:
+        return list(STR_FMTS[kind])
+    raise TranslateError(f'{fn}:{line}: str() of a {kind} is not a known number format')
+
+
+def conv_kv_formats(fn: str, kind: str, line: int) -> list:
+    """conv_kv(value): bool -> '1'/'0', float -> format_float, the rest -> str (the dispatch is checked by load_str_formats)."""
+    if kind == 'bool':
+        return ['B']
+    if kind == 'float':
+        return [('F', FLOAT_PLACES[0])]
+    return str_formats(fn, kind, line)
+
+
+def num_formats(fn: str, e: ast.AST, spec: ast.AST | None, line: int) -> Any:
+    """Which formatter writes this number-like interpolation: a list of component formats, or ('rows', source) for a
+    `' '.join(...)` of array elements (resolved per array by analyse)."""
+    src = ast.unparse(e)
+    if isinstance(e, ast.Name) and e.id in LOCALS.get(fn, {}) and src not in NUM_KINDS:
+        return num_formats(fn, LOCALS[fn][e.id], spec, line)
+    if spec is not None:
+        f = _spec_format(fn, ast.unparse(spec), line)
+        k = kind_of(fn, e, line)
+        if k not in ('int', 'float') or (f == 'I' and k != 'int'):
+            raise TranslateError(f'{fn}:{line}: format spec {ast.unparse(spec)} on a {k}')
+        return [f]
+    if _const_ifexp_values(e) is not None:
+        return ['B']
+    if isinstance(e, ast.Call):
+        f = ast.unparse(e.func)
+        if f == 'format_float':
+            if len(e.args) == 1 and not e.keywords:
+                return [('F', FLOAT_PLACES[0])]
+            pl = e.args[1] if len(e.args) == 2 else next((k.value for k in e.keywords if k.arg == 'places'), None)
+            if isinstance(pl, ast.Constant) and isinstance(pl.value, int):
+                return [('F', pl.value)]
+            raise TranslateError(f'{fn}:{line}: format_float call shape {src}')
+        if f == 'srctools.bool_as_int':
+            return ['B']
+        if f in ('int', 'len'):
+            return ['I']
+        if f == 'str' and len(e.args) == 1:
+            return str_formats(fn, kind_of(fn, e.args[0], line), line)
+        if f == 'conv_kv' and len(e.args) == 1:
+            return conv_kv_formats(fn, kind_of(fn, e.args[0], line), line)
+        if f == "' '.join":
+            a = e.args[0]
+            if isinstance(a, ast.Call) and ast.unparse(a.func) == 'map' and len(a.args) == 2 and ast.unparse(a.args[0]) == 'str' \
+                    and NUM_KINDS.get(ast.unparse(a.args[1])) == 'intlist':
+                return ['I']
+            return ('rows', src)
+    if isinstance(e, ast.Subscript) and src.startswith('_DISP_COLL_TO_FLAG['):
+        return ['I']
+    return str_formats(fn, kind_of(fn, e, line), line)
+
+
 def classify(fn: str, e: ast.AST, spec: ast.AST | None, line: int) -> Piece:
     """Classify one interpolated expression."""
     src = ast.unparse(e)
+    if isinstance(e, ast.Name) and e.id in LOCALS.get(fn, {}) and src not in FIELD_TYPES and src not in STRUCT_EXPRS:
+        # a single-assignment local: classify what it stands for (the field name stays the local's source expression)
+        return classify(fn, LOCALS[fn][e.id], spec, line)
     if spec is not None:
-        sp = ast.unparse(spec)
-        if sp not in ("f'g'", "f'02'"):
-            raise TranslateError(f'{fn}:{line}: unknown format spec {sp} on {{{src}}}')
-        return Piece('ip', cls='Num', field=src, line=line)
+        return Piece('ip', cls='Num', field=src, line=line, fmt=num_formats(fn, e, spec, line))
     if src in STRUCT_EXPRS:
         return Piece('ip', cls='Struct', field=src, line=line)
     vals = _const_ifexp_values(e)
     if vals is not None:
         if all(re.fullmatch(r'[01]', v) for v in vals):
-            return Piece('ip', cls='Num', field=src, line=line)
+            return Piece('ip', cls='Num', field=src, line=line, fmt=['B'])
         if all(re.fullmatch(r'[a-z]+', v) for v in vals):
             return Piece('ip', cls='Struct', field='|'.join(vals), line=line)
         raise TranslateError(f'{fn}:{line}: conditional literal {src} not recognised')
@@ -159,24 +274,73 @@ def classify(fn: str, e: ast.AST, spec: ast.AST | None, line: int) -> Piece:
             if FIELD_TYPES.get(key) != 's':
                 raise TranslateError(f'{fn}:{line}: escape_text applied to {inner}, which the field table does not list as str')
             return Piece('ip', cls='EscML' if len(e.args) == 2 else 'Esc', field=inner, line=line)
-        if f in ('format_float', 'srctools.bool_as_int', 'int', 'len'):
-            return Piece('ip', cls='Num', field=src, line=line)
-        if f == "' '.join":
-            return Piece('ip', cls='Num', field=src, line=line)       # rows of numbers; element forms are checked by disp_shapes
+        if f in ('format_float', 'srctools.bool_as_int', 'int', 'len', "' '.join"):
+            # rows of numbers (' '.join): element forms are checked by disp_shapes
+            return Piece('ip', cls='Num', field=src, line=line, fmt=num_formats(fn, e, None, line))
+        if f in ('conv_kv', 'str') and len(e.args) == 1 and not e.keywords:
+            inner = ast.unparse(e.args[0])
+            key = inner + '@Output' if (fn.startswith('Output.') and inner == 'self.target') else inner
+            if FIELD_TYPES.get(key) == 's':
+                return Piece('ip', cls='RawStr', field=src, line=line)       # conv_kv / str of a str is the str itself
+            return Piece('ip', cls='Num', field=src, line=line, fmt=num_formats(fn, e, None, line))
         if f in ('self.exp_out', 'self.exp_in'):
             return Piece('ip', cls='RawStr', field=src, line=line)
         raise TranslateError(f'{fn}:{line}: unknown call {{{src}}} in written text')
     if isinstance(e, ast.Subscript) and src.startswith('_DISP_COLL_TO_FLAG['):
-        return Piece('ip', cls='Num', field=src, line=line)
-    if src == 'sep':
+        return Piece('ip', cls='Num', field=src, line=line, fmt=['I'])
+    if src == 'sep' or (fn == 'Output.as_keyvalue' and src in SEP_NAMES):
         return Piece('ip', cls='Sep', field=src, line=line)
     key = src + '@Output' if (fn.startswith('Output.') and src == 'self.target') else src
     ty = FIELD_TYPES.get(key)
     if ty == 'n':
-        return Piece('ip', cls='Num', field=src, line=line)
+        return Piece('ip', cls='Num', field=src, line=line, fmt=num_formats(fn, e, None, line))
     if ty == 's':
         return Piece('ip', cls='RawStr', field=src, line=line)
     raise TranslateError(f'{fn}:{line}: interpolation {{{src}}} is not in the field-type table')
+
+
+def sep_locals(node: ast.FunctionDef) -> set[str]:
+    """Locals of Output.as_keyvalue that hold the separator: assigned (directly or in both branches of an if) from
+    one-character literals / self.SEP / OUTPUT_SEP, chosen by self.comma_sep."""
+    out: set[str] = set()
+
+    def leaves(e: ast.AST) -> list[ast.AST]:
+        return leaves(e.body) + leaves(e.orelse) if isinstance(e, ast.IfExp) else [e]
+    for n in ast.walk(node):
+        if isinstance(n, ast.Assign) and len(n.targets) == 1 and isinstance(n.targets[0], ast.Name):
+            if all((isinstance(x, ast.Constant) and isinstance(x.value, str) and len(x.value) == 1)
+                   or ast.unparse(x) in ('self.SEP', 'OUTPUT_SEP', 'Output.SEP') for x in leaves(n.value)):
+                out.add(n.targets[0].id)
+    return out
+
+
+def find_locals(fn: str, node: ast.FunctionDef) -> dict[str, ast.AST]:
+    """Names assigned exactly once in the method by a plain `name = expr` (never a loop target, parameter, augmented or
+    deleted), whose value reads only attributes/parameters: safe to inline where they are interpolated."""
+    counts: dict[str, int] = {}
+    vals: dict[str, ast.AST] = {}
+    banned = {a.arg for a in node.args.args + node.args.kwonlyargs} | STRUCT_EXPRS | {'sep', 'row', 'rows'}
+    for n in ast.walk(node):
+        if isinstance(n, ast.Assign):
+            for t in n.targets:
+                for x in ast.walk(t):
+                    if isinstance(x, ast.Name):
+                        counts[x.id] = counts.get(x.id, 0) + 1
+            if len(n.targets) == 1 and isinstance(n.targets[0], ast.Name):
+                vals[n.targets[0].id] = n.value
+        elif isinstance(n, (ast.AugAssign, ast.AnnAssign)):
+            for x in ast.walk(n.target):
+                if isinstance(x, ast.Name):
+                    counts[x.id] = counts.get(x.id, 0) + 2
+        elif isinstance(n, (ast.For, ast.comprehension)):
+            for x in ast.walk(n.target):
+                if isinstance(x, ast.Name):
+                    counts[x.id] = counts.get(x.id, 0) + 2
+        elif isinstance(n, (ast.NamedExpr, ast.Delete, ast.With)):
+            for x in ast.walk(n):
+                if isinstance(x, ast.Name) and isinstance(x.ctx, (ast.Store, ast.Del)):
+                    counts[x.id] = counts.get(x.id, 0) + 2
+    return {k: v for k, v in vals.items() if counts.get(k) == 1 and k not in banned and k not in SEP_NAMES}
 
 
 def flatten(fn: str, e: ast.AST) -> list[Piece]:
@@ -191,21 +355,129 @@ def flatten(fn: str, e: ast.AST) -> list[Piece]:
             elif isinstance(v, ast.FormattedValue):
                 if v.conversion != -1:
                     raise TranslateError(f'{fn}:{e.lineno}: conversion in f-string')
-                out.append(classify(fn, v.value, v.format_spec, e.lineno))
+                loc = LOCALS.get(fn, {}).get(v.value.id) if isinstance(v.value, ast.Name) else None
+                if loc is not None and v.format_spec is None and isinstance(loc, (ast.JoinedStr, ast.BinOp)):
+                    out += flatten(fn, loc)          # a local that holds a piece of text built by an f-string
+                else:
+                    out.append(classify(fn, v.value, v.format_spec, e.lineno))
             else:
                 raise TranslateError(f'{fn}:{e.lineno}: f-string part {type(v).__name__}')
         return out
     if isinstance(e, ast.BinOp) and isinstance(e.op, ast.Add):
         return flatten(fn, e.left) + flatten(fn, e.right)
+    if isinstance(e, ast.Name) and e.id in LOCALS.get(fn, {}) and isinstance(LOCALS[fn][e.id], (ast.JoinedStr, ast.BinOp)):
+        return flatten(fn, LOCALS[fn][e.id])
     if isinstance(e, ast.Name) or isinstance(e, ast.Subscript):
         return [classify(fn, e, None, e.lineno)]
     if isinstance(e, ast.Call):
         f = ast.unparse(e.func)
-        if f == 'srctools.bool_as_int':
+        if f in ('srctools.bool_as_int', 'escape_text', 'format_float', 'conv_kv', 'str'):
             return [classify(fn, e, None, e.lineno)]
         if f == 'self.as_keyvalue':
             return [Piece('call', field='self.as_keyvalue', line=e.lineno)]
     raise TranslateError(f'{fn}:{getattr(e, "lineno", 0)}: unrecognised written expression {ast.unparse(e)[:60]}')
+
+
+def _fmt_of_format_float(mfuncs: dict[str, ast.FunctionDef]) -> int:
+    """math.format_float: `f'{x+0.0:.{places}f}'` with a literal default for places; stripping zeros / the point keeps the
+    number.  Returns the default number of places."""
+    ff = mfuncs.get('format_float')
+    if ff is None:
+        raise TranslateError('math.format_float not found')
+    names = [a.arg for a in ff.args.args]
+    if len(names) != 2 or len(ff.args.defaults) != 1 or not (isinstance(ff.args.defaults[0], ast.Constant)
+                                                             and isinstance(ff.args.defaults[0].value, int)):
+        raise TranslateError('format_float: signature (x, places=<int literal>) expected')
+    x, pl = names
+    js = [n for n in ast.walk(ff) if isinstance(n, ast.JoinedStr) and any(isinstance(v, ast.FormattedValue) and v.format_spec is not None for v in n.values)]
+    if len(js) != 1 or len(js[0].values) != 1:
+        raise TranslateError('format_float: one formatted value expected')
+    fv = js[0].values[0]
+    assert isinstance(fv, ast.FormattedValue)
+    val = ast.unparse(fv.value).replace(' ', '')
+    if val not in (x, f'{x}+0.0', f'0.0+{x}'):
+        raise TranslateError(f'format_float: formats {val}, not its argument')
+    sp = fv.format_spec
+    parts = [(v.value if isinstance(v, ast.Constant) else '{' + ast.unparse(v.value) + '}') for v in sp.values]     # type: ignore[union-attr]
+    if ''.join(parts) != '.{' + pl + '}f':
+        raise TranslateError(f'format_float: format spec {"".join(parts)!r} is not .{{places}}f')
+    # what happens to the text afterwards may only strip trailing zeros and the point
+    for n in ast.walk(ff):
+        if isinstance(n, ast.Call) and isinstance(n.func, ast.Attribute) and n.func.attr not in ('rstrip',):
+            raise TranslateError(f'format_float: call {ast.unparse(n)[:40]}')
+        if isinstance(n, ast.Call) and isinstance(n.func, ast.Attribute) and n.func.attr == 'rstrip' and \
+                not (len(n.args) == 1 and isinstance(n.args[0], ast.Constant) and n.args[0].value in ('0', '.')):
+            raise TranslateError(f'format_float: strips {ast.unparse(n.args[0]) if n.args else "whitespace"}')
+    return ff.args.defaults[0].value
+
+
+def _str_components(where: str, node: ast.FunctionDef, places: int) -> list:
+    """Formats of the numbers in the f-string a __str__ method returns; the literal text between them may only hold
+    spaces and brackets."""
+    rets = [n for n in ast.walk(node) if isinstance(n, ast.Return) and n.value is not None]
+    if len(rets) != 1:
+        raise TranslateError(f'{where}: a single return expected')
+    v = rets[0].value
+    pieces: list[ast.AST] = []
+
+    def walk(e: ast.AST) -> None:
+        if isinstance(e, ast.JoinedStr):
+            pieces.extend(e.values)
+        elif isinstance(e, ast.BinOp) and isinstance(e.op, ast.Add):
+            walk(e.left)
+            walk(e.right)
+        elif isinstance(e, ast.Constant) and isinstance(e.value, str):
+            pieces.append(e)
+        else:
+            raise TranslateError(f'{where}: returned expression {ast.unparse(e)[:50]}')
+    walk(v)       # type: ignore[arg-type]
+    out: list = []
+    for pc in pieces:
+        if isinstance(pc, ast.Constant):
+            if not re.fullmatch(r'[ \[\]\(\)]*', str(pc.value)):
+                raise TranslateError(f'{where}: literal text {pc.value!r} between the numbers')
+        elif isinstance(pc, ast.FormattedValue):
+            if pc.conversion != -1:
+                raise TranslateError(f'{where}: conversion')
+            if not re.fullmatch(r'(format_float\()?self\._?[a-z]+\)?', ast.unparse(pc.value)):
+                raise TranslateError(f'{where}: component {ast.unparse(pc.value)}')
+            if pc.format_spec is not None:
+                out.append(_spec_format(where, ast.unparse(pc.format_spec), pc.lineno))
+            elif isinstance(pc.value, ast.Call):
+                if ast.unparse(pc.value.func) != 'format_float' or len(pc.value.args) != 1 or pc.value.keywords:
+                    raise TranslateError(f'{where}: component {ast.unparse(pc.value)}')
+                out.append(('F', places))
+            else:
+                out.append('R')          # a bare float attribute: repr
+        else:
+            raise TranslateError(f'{where}: f-string part')
+    return out
+
+
+def load_str_formats(vfuncs: dict[str, ast.FunctionDef]) -> None:
+    """STR_FMTS / FLOAT_PLACES from math.py (format_float, VecBase.__str__, AngleBase.__str__) and vmf.py (UVAxis.__str__,
+    Vec4.__str__); the float / bool dispatch of conv_kv."""
+    mfuncs = _funcs(ast.parse(src_text('math.py')))
+    FLOAT_PLACES[0] = _fmt_of_format_float(mfuncs)
+    STR_FMTS.clear()
+    for kind, table, name in (('Vec', mfuncs, 'VecBase.__str__'), ('Angle', mfuncs, 'AngleBase.__str__'),
+                              ('UVAxis', vfuncs, 'UVAxis.__str__'), ('Vec4', vfuncs, 'Vec4.__str__')):
+        if name not in table:
+            raise TranslateError(f'{name} not found')
+        STR_FMTS[kind] = _str_components(name, table[name], FLOAT_PLACES[0])
+    ck = vfuncs.get('conv_kv')
+    if ck is None:
+        raise TranslateError('conv_kv not found')
+    # float branch: `isinstance(val, float)` -> format_float(val); it must come before any str()/__str__ fallback for floats
+    found = False
+    for n in ast.walk(ck):
+        if isinstance(n, ast.If) and ast.unparse(n.test) == 'isinstance(val, float)':
+            if len(n.body) == 1 and isinstance(n.body[0], ast.Return) and ast.unparse(n.body[0].value) == 'format_float(val)':
+                found = True
+            else:
+                raise TranslateError('conv_kv: float branch does not return format_float(val)')
+    if not found:
+        raise TranslateError('conv_kv: float branch not found')
 
 
 # ---------------------------------------------------------------------------------------------- export side
@@ -388,6 +660,7 @@ def export_sites(funcs: dict[str, ast.FunctionDef]) -> tuple[list[Site], list[tu
             raise TranslateError(f'export method {fn} not found')
         walkers[fn] = ExportWalker(fn, funcs[fn])
     sites: list[Site] = []
+    numfields: list[tuple] = []           # (writer, block, literal key text, index of the number in the value, formats | ('rows', src))
     written: list[tuple[str, str, str, bool]] = []
     done: set[tuple[str, str, tuple]] = set()
     reached: set[str] = set()
@@ -473,6 +746,11 @@ def export_sites(funcs: dict[str, ast.FunctionDef]) -> tuple[list[Site], list[tu
                         _, k, v = r
                         for blk in owners():
                             sites.append(Site(fn, blk, k, v, k[0].line if k else 0))
+                            ktxt = ''.join(p.text for p in k if p.kind == 'lit').casefold()
+                            for ni, pc in enumerate(p for p in v if p.kind == 'ip' and p.cls == 'Num'):
+                                if pc.fmt is None:
+                                    raise TranslateError(f'{fn}:{pc.line}: number {pc.field} without a recorded format')
+                                numfields.append((fn, blk, ktxt, ni, pc.fmt if isinstance(pc.fmt, list) else tuple(pc.fmt), pc.field))
                             if all(p.kind == 'lit' for p in k):
                                 written.append((fn, blk, ''.join(p.text for p in k).casefold(), False))
                             elif k and k[0].kind == 'lit' and all(p.kind == 'lit' or p.cls == 'Num' for p in k):
@@ -507,7 +785,10 @@ def export_sites(funcs: dict[str, ast.FunctionDef]) -> tuple[list[Site], list[tu
     for s in sites:
         uniq.setdefault((s.fn, s.line, repr(s.key), repr(s.val)), s)
     wr = sorted(set(written))
-    return list(uniq.values()), wr, {'n_sites': len(uniq), 'n_written': len(wr)}
+    nf: dict[tuple, tuple] = {}
+    for rec in numfields:
+        nf.setdefault((rec[0], rec[1], rec[2], rec[3], repr(rec[4])), rec)
+    return list(uniq.values()), wr, {'n_sites': len(uniq), 'n_written': len(wr), 'numfields': list(nf.values())}
 
 
 VIEW_TITLES: list[list[str]] = [[]]
@@ -943,7 +1224,8 @@ def disp_shapes(funcs: dict[str, ast.FunctionDef]) -> tuple[list[dict], str, dic
             if a[1].value not in MEMBER_ARITY:
                 raise TranslateError(f'_export_displacement: unknown vertex member {a[1].value}')
             arrays[a[0].value] = {'w_rows': rs_rows, 'w_lo': rs_lo, 'w_hi': rs_hi, 'w_arity': [MEMBER_ARITY[a[1].value]],
-                                  'member': a[1].value, 'line': n.lineno}
+                                  'member': a[1].value, 'line': n.lineno,
+                                  'fmts': str_formats('Side._export_disp_rowset', MEMBER_KINDS[a[1].value], n.lineno)}
     # --- inline writers: triangle_tags and multiblend_color_{i}
     def inline(loop: ast.For, name: str) -> None:
         mm = re.fullmatch(r'range\((.+)\)', ast.unparse(loop.iter))
@@ -967,14 +1249,20 @@ def disp_shapes(funcs: dict[str, ast.FunctionDef]) -> tuple[list[dict], str, dic
             if not re.fullmatch(r'#( #)*', lit):
                 raise TranslateError(f'_export_displacement: element template of {name}: {lit!r}')
             ar = [lit.count('#')]
+            fmts = [f for v in elt.values if isinstance(v, ast.FormattedValue)
+                    for f in num_formats('Side._export_displacement', v.value, v.format_spec, loop.lineno)]
         elif isinstance(elt, ast.IfExp):
             b, o = elt.body, elt.orelse
             if ast.unparse(b) != 'str(vert.multi_colors[i])' or not (isinstance(o, ast.Constant) and isinstance(o.value, str)):
                 raise TranslateError(f'_export_displacement: element expression of {name}')
             ar = [MEMBER_ARITY['multi_colors[i]'], len(o.value.split())]
+            if not all(re.fullmatch(r'-?\d+', w) for w in o.value.split()):
+                raise TranslateError(f'_export_displacement: default element {o.value!r} of {name} is not made of integers')
+            fmts = str_formats('Side._export_displacement', MEMBER_KINDS['multi_colors[i]'], loop.lineno)
         else:
             raise TranslateError(f'_export_displacement: element expression of {name}')
-        arrays[name] = {'w_rows': rows, 'w_lo': lo, 'w_hi': hi, 'w_arity': ar, 'member': ast.unparse(elt)[:60], 'line': loop.lineno}
+        arrays[name] = {'w_rows': rows, 'w_lo': lo, 'w_hi': hi, 'w_arity': ar, 'member': ast.unparse(elt)[:60], 'line': loop.lineno,
+                        'fmts': fmts}
     # find the `for y in ...` loops that assign `row`
     def visit(stmts: list[ast.stmt], ctx_i: str | None) -> None:
         for s in stmts:
@@ -1037,7 +1325,10 @@ def disp_shapes(funcs: dict[str, ast.FunctionDef]) -> tuple[list[dict], str, dic
         out.append({'name': name, 'written': a is not None, 'read': name in readers,
                     'w_rows': a['w_rows'] if a else '0', 'w_lo': a['w_lo'] if a else '0', 'w_hi': a['w_hi'] if a else '0',
                     'w_arity': a['w_arity'] if a else [], 'r_cols': readers.get(name, '0'),
-                    'member': a['member'] if a else '', 'line': a['line'] if a else 0})
+                    'member': a['member'] if a else '', 'line': a['line'] if a else 0, 'fmts': a['fmts'] if a else []})
+        if a and any(x != len(a['fmts']) for x in a['w_arity'][:1]):
+            raise TranslateError(f'displacement array {name}: {a["w_arity"]} numbers per vertex by the arity table, {len(a["fmts"])} '
+                                 f'by the __str__ method that writes them')
     return out, size_expr, {'arrays': {o['name']: {k: o[k] for k in ('w_rows', 'w_lo', 'w_hi', 'w_arity', 'r_cols')} for o in out}}
 
 
@@ -1096,13 +1387,30 @@ def analyse() -> dict:
     tree = ast.parse(src)
     funcs = _funcs(tree)
     VIEW_TITLES[0] = find_view_titles(funcs['VMF.export'])
+    load_str_formats(funcs)
+    SEP_NAMES.clear()
+    if 'Output.as_keyvalue' in funcs:
+        SEP_NAMES.update(sep_locals(funcs['Output.as_keyvalue']))
+    LOCALS.clear()
+    for fn in EXPORT_FUNCS:
+        if fn in funcs:
+            LOCALS[fn] = find_locals(fn, funcs[fn])
     sites, written, s1 = export_sites(funcs)
     reads, s2 = parse_reads(funcs, tree)
     arrays, size_expr, s3 = disp_shapes(funcs)
+    by_name = {o['name']: o for o in arrays}
+    numfields = []
+    for fn, blk, key, idx, fmt, field in s1.pop('numfields'):
+        if isinstance(fmt, tuple) and fmt and fmt[0] == 'rows':
+            if blk not in by_name or not by_name[blk]['written']:
+                raise TranslateError(f'{fn}: a row of numbers is written in block {blk}, which is not a known displacement array')
+            fmt = by_name[blk]['fmts']
+        numfields.append({'fn': fn, 'block': blk, 'key': key, 'idx': idx, 'fmts': [fmt_name(f) for f in fmt], 'field': field,
+                          'raw': list(fmt)})
     mode, s4 = entity_loop_mode(funcs['VMF.parse'])
     fw, fr = fixup_index_shape(funcs)
     digests = {fn: ast_digest(funcs[fn]) for fn in EXPORT_FUNCS + list(PARSE_ROOTS) if fn in funcs}
-    val = dict(sites=sites, written=written, reads=reads, arrays=arrays, size_expr=size_expr, mode=mode, fixup=(fw, fr),
+    val = dict(sites=sites, written=written, reads=reads, arrays=arrays, size_expr=size_expr, mode=mode, fixup=(fw, fr), numfields=numfields,
                side=dict(export=s1, parse=s2, disp=s3, order=s4, digests=digests, view_titles=VIEW_TITLES[0]))
     _CACHE.update(key=key, val=val)
     return val
@@ -1195,4 +1503,38 @@ def gen_order() -> tuple[str, dict]:
     return '\n'.join(lines), {'mode': a['mode'], 'fixup_width_written': fw, 'fixup_chars_read': fr, **a['side']['order']}
 
 
-GEN = {'VmfTemplates_gen': gen_templates, 'VmfKeys_gen': gen_keys, 'VmfDispSizes_gen': gen_disp, 'VmfOrder_gen': gen_order}
+def _coq_fmt(f: Any) -> str:
+    if f == 'I':
+        return 'FmtInt'
+    if f == 'B':
+        return 'FmtFlag'
+    if f == 'R':
+        return 'FmtRepr'
+    if isinstance(f, tuple) and f[0] in ('F', 'G') and isinstance(f[1], int) and 0 <= f[1] <= 30:
+        return f'(Fmt{f[0]} {f[1]})'
+    raise TranslateError(f'number format {f!r}')
+
+
+def gen_numfmt() -> tuple[str, dict]:
+    """Which formatter writes every number of every written keyvalue line."""
+    a = analyse()
+    lines = ['(* GENERATED by translate/c06_vmf.py from src/srctools/vmf.py and math.py. Do not edit. *)',
+             'From Coq Require Import NArith List String.', 'From SV Require Import Fmt.VmfNum.', 'Import ListNotations.',
+             'Open Scope string_scope.', '',
+             '(* writer method, enclosing block, literal text of the key (lower case; "" for a dynamic key), index of the number within',
+             '   the value, formats of its components (a Vec has three, a UVAxis five, a row of an array one vertex worth) *)',
+             'Definition num_fields : list numfield := [']
+    rows = []
+    for f in sorted(a['numfields'], key=lambda f: (f['block'], f['key'], f['idx'], f['fn'])):
+        rows.append(f'  mk_numfield {_coq_name(f["fn"])} {_coq_name(f["block"])} {_coq_name(f["key"])} {f["idx"]}%N '
+                    f'[{"; ".join(_coq_fmt(x) for x in f["raw"])}]')
+    lines.append(';\n'.join(rows))
+    lines.append('].')
+    lines.append(f'Definition gen_float_places : nat := {FLOAT_PLACES[0]}.')
+    lines.append('')
+    info = [{k: f[k] for k in ('fn', 'block', 'key', 'idx', 'fmts', 'field')} for f in a['numfields']]
+    return '\n'.join(lines), {'fields': info, 'str_formats': {k: [fmt_name(x) for x in v] for k, v in STR_FMTS.items()},
+                              'float_places': FLOAT_PLACES[0]}
+
+
+GEN = {'VmfNumFmt_gen': gen_numfmt, 'VmfTemplates_gen': gen_templates, 'VmfKeys_gen': gen_keys, 'VmfDispSizes_gen': gen_disp, 'VmfOrder_gen': gen_order}
